@@ -180,10 +180,10 @@ def HeaderV.genuine (h : HeaderV) : Prop :=
   h.entry = 256#64
 
 
-/-! ## V5 kernel descriptor, typed, in the layout the loader reads -/
+/-! ## V5 kernel descriptor, typed, in the ABI layout (which the repaired loader reads) -/
 
-/-- what `parseV5KernelDescriptor` reads, at the offsets *it* uses (rsrc3 @40, rsrc1 @44,
-rsrc2 @48 — the ABI has them one word later, see `C13_full_refuted`) -/
+/-- what `parseV5KernelDescriptor` reads: sizes @0/4/8, entry @16, compute_pgm_rsrc3 @44,
+rsrc1 @48, rsrc2 @52 -/
 structure KdV where
   lds : BitVec 32
   priv : BitVec 32
@@ -194,27 +194,25 @@ structure KdV where
   rsrc2 : Rsrc2
   deriving DecidableEq, Repr
 
-/-- the descriptor bytes the loader never reads: 12..15, 24..39, 52..63 -/
+/-- the descriptor bytes the loader never reads: 12..15, 24..43, 56..63 -/
 structure KdIgnored where
   reserved12 : BitVec 32
   reserved24 : BitVec 64
   reserved32 : BitVec 64
-  /-- bytes 52..55: the ABI's compute_pgm_rsrc2 -/
-  word52 : BitVec 32
-  /-- bytes 56..57: the ABI's kernel_code_properties -/
-  half56 : BitVec 16
-  /-- bytes 58..59: the ABI's kernarg_preload -/
-  half58 : BitVec 16
+  reserved40 : BitVec 32
+  /-- bytes 56..57: kernel_code_properties (the loader derives the enables itself) -/
+  props : BitVec 16
+  /-- bytes 58..59: kernarg_preload -/
+  preload : BitVec 16
   reserved60 : BitVec 32
   deriving DecidableEq, Repr
 
-/-- serialise in the loader's layout (written with the ABI writer `renderKd`, whose slot
-names are therefore one word off) -/
+/-- serialise with the ABI writer `renderKd` -/
 def encodeKd (k : KdV) (g : KdIgnored) : Bytes :=
   renderKd { lds := k.lds.toNat, priv := k.priv.toNat, kernarg := k.kernarg.toNat, reserved12 := g.reserved12.toNat,
              entry := k.entry.toNat, reserved24 := g.reserved24.toNat, reserved32 := g.reserved32.toNat,
-             reserved40 := k.rsrc3.toNat, rsrc3 := k.rsrc1.enc.toNat, rsrc1 := k.rsrc2.enc.toNat,
-             rsrc2 := g.word52.toNat, props := g.half56.toNat, preload := g.half58.toNat,
+             reserved40 := g.reserved40.toNat, rsrc3 := k.rsrc3.toNat, rsrc1 := k.rsrc1.enc.toNat,
+             rsrc2 := k.rsrc2.enc.toNat, props := g.props.toNat, preload := g.preload.toNat,
              reserved60 := g.reserved60.toNat }
 
 /-- the metadata the loader derives from a typed descriptor -/
@@ -235,8 +233,8 @@ def decodeKd (d : Bytes) : Option KdV := (parseV5KernelDescriptor? d).map KdV.of
 
 def ignoredOfKd (d : Bytes) : KdIgnored :=
   { reserved12 := BitVec.ofNat 32 (u32 d 12), reserved24 := BitVec.ofNat 64 (u64 d 24),
-    reserved32 := BitVec.ofNat 64 (u64 d 32), word52 := BitVec.ofNat 32 (u32 d 52),
-    half56 := BitVec.ofNat 16 (u16 d 56), half58 := BitVec.ofNat 16 (u16 d 58),
+    reserved32 := BitVec.ofNat 64 (u64 d 32), reserved40 := BitVec.ofNat 32 (u32 d 40),
+    props := BitVec.ofNat 16 (u16 d 56), preload := BitVec.ofNat 16 (u16 d 58),
     reserved60 := BitVec.ofNat 32 (u32 d 60) }
 
 /-! ## which bytes are interpreted -/
@@ -250,12 +248,12 @@ def hdrFullBytes : List Nat :=
 def hdrIgnoredBytes : List Nat := List.range' 24 24 ++ [58, 59] ++ List.range' 68 4 ++ List.range' 80 4
 
 /-- descriptor bytes `parseV5KernelDescriptor` copies verbatim -/
-def kdFullBytes : List Nat := List.range' 0 12 ++ List.range' 16 8 ++ List.range' 40 8
+def kdFullBytes : List Nat := List.range' 0 12 ++ List.range' 16 8 ++ List.range' 44 8
 
 /-- descriptor bytes of the word that is rewritten (`fixRsrc2`) -/
-def kdRewrittenBytes : List Nat := List.range' 48 4
+def kdRewrittenBytes : List Nat := List.range' 52 4
 
 /-- descriptor bytes never read -/
-def kdIgnoredBytes : List Nat := List.range' 12 4 ++ List.range' 24 16 ++ List.range' 52 12
+def kdIgnoredBytes : List Nat := List.range' 12 4 ++ List.range' 24 20 ++ List.range' 56 8
 
 end C13
